@@ -226,6 +226,94 @@ example : ∃ c1 rid1, nextReader witSrv = (.msg 1 rid1 false, c1) ∧
   abandon_then_next witSrv witSrv_idle 1 2 (Or.inl rfl) (Or.inr rfl) witMsg witMsg2 witMsg_shape witMsg2_shape [0x81]
     (by decide) (Or.inl rfl) ⟨by decide, by decide⟩ (by decide) [2, 1] 3 (by decide)
 
+section Z
+open WS.ReaderZ
+
+/-- first frame of a compressed text message: 4 bytes of deflate stream, non-final; on the wire it
+    carries RSV1 (`encZ`) -/
+def witZFirst : PFrame :=
+  { op := 1, fin := false, key := ⟨0x37, 0xfa, 0x21, 0x3d⟩, payload := [0xf2, 0x48, 0xcd, 0xc9] }
+
+/-- … followed by a ping "p" and the final continuation with the last 3 bytes of the deflate stream -/
+def witZMore : List PFrame :=
+  [{ op := 9, fin := true, key := ⟨1, 2, 3, 4⟩, payload := [0x70] },
+   { op := 0, fin := true, key := ⟨0xa0, 0xb0, 0xc0, 0xd0⟩, payload := [0xc9, 0x07, 0x00] }]
+
+def witZ_shape : ZShape 1 witZFirst witZMore :=
+  ⟨rfl, by decide, Or.inr ⟨rfl, Tail.ctl _ _ ⟨Or.inl rfl, rfl, by decide⟩ (Tail.last _ rfl rfl (by decide))⟩⟩
+
+/-- the wire bytes of the compressed message followed by the first byte of the next frame -/
+def witZWire : Bytes := encZ true witZFirst ++ encAll true witZMore ++ [0x81]
+
+example : witZWire.length = 27 := by decide
+/-- the first wire byte is 0x41: text, FIN clear, RSV1 set -/
+example : witZWire.take 2 = [0x41, 0x84] := by decide
+
+/-- a server connection with permessage-deflate negotiated, reader idle, 4096-byte bufio.Reader that
+    has buffered the first 5 wire bytes; the rest arrives in two chunks (9 and 13 bytes), then the
+    transport times out -/
+def witSrvZ : Conn :=
+  { w := newW true 4096 false false,
+    r := { isServer := true, nego := true, hlog := [.pong []],
+           buf := { size := 4096, buf := witZWire.take 5,
+                    t := { chunks := [(witZWire.drop 5).take 9, witZWire.drop 14],
+                           term := .transport 1 },
+                    total := witZWire.length } } }
+
+def witSrvZ_idle : ReaderIdle witSrvZ :=
+  ⟨rfl, rfl, rfl, ⟨by decide, by decide, by decide, (by intro e h; cases h)⟩, by decide, by decide,
+    (by intro id h; cases h), (by intro id h; cases h)⟩
+
+/-- non-vacuity of `read_compressed_message`: `ReaderIdle`, `nego = true`, `ZShape`, the pending bytes,
+    `hend`, the size and limit hypotheses hold together; reads of 2 bytes. NextReader reports
+    `z = true` and the raw bytes handed to the decompressor are the concatenated payloads. -/
+example : ∃ c1 rid, nextReader witSrvZ = (.msg 1 rid true, c1) ∧
+      ∃ c2, readAll c1 rid 2 = (([0xf2, 0x48, 0xcd, 0xc9, 0xc9, 0x07, 0x00], none), c2) ∧ ReaderIdle c2 ∧
+        c2.r.buf.pending = [0x81] ∧ c2.r.hlog = [.pong [], .ping [0x70]] :=
+  read_compressed_message witSrvZ witSrvZ_idle rfl 1 (Or.inl rfl) witZFirst witZMore witZ_shape [0x81]
+    (by decide) (Or.inl rfl) (by decide) (Or.inl (by decide)) 2 (by decide)
+
+/-- the same instance evaluated directly on the model: compressed flag and message type -/
+example : ∃ rid, (nextReader witSrvZ).1 = .msg 1 rid true := ⟨_, rfl⟩
+
+/-- the same wire bytes on a connection where compression was NOT negotiated -/
+def witSrvNoZ : Conn := { witSrvZ with r := { witSrvZ.r with nego := false } }
+
+def witSrvNoZ_idle : ReaderIdle witSrvNoZ :=
+  ⟨rfl, rfl, rfl, ⟨by decide, by decide, by decide, (by intro e h; cases h)⟩, by decide, by decide,
+    (by intro id h; cases h), (by intro id h; cases h)⟩
+
+/-- non-vacuity of `compressed_frame_refused_when_not_negotiated`: the RSV1 first frame is refused with
+    a protocol error and no handler ran -/
+example : ∃ msg c', nextReader witSrvNoZ = (.err (.protocol msg), c') ∧ c'.r.hlog = [.pong []] :=
+  compressed_frame_refused_when_not_negotiated witSrvNoZ witSrvNoZ_idle rfl 1 (Or.inl rfl) witZFirst rfl
+    (encAll true witZMore ++ [0x81]) (by decide) rfl
+
+end Z
+
+section Join
+open WS.JoinLaw
+
+/-- non-vacuity of `join_message`: `witSrv` read through JoinMessages with terminator "\n" and reads of
+    3 bytes delivers "Hello\n" -/
+example : ∃ c', joinMsg 20 witSrv .idle [10] 3 [] = (([0x48, 0x65, 0x6c, 0x6c, 0x6f, 10], none), c', .idle) ∧
+      ReaderIdle c' ∧ c'.r.buf.pending = encAll true witMsg2 ++ [0x81] ∧
+      c'.r.hlog = [.pong [], .ping [0x70]] :=
+  join_message witSrv witSrv_idle 1 (Or.inl rfl) witMsg witMsg_shape (encAll true witMsg2 ++ [0x81])
+    (by decide) (Or.inl rfl) (by decide) (by decide) [10] 3 (by decide) 20 (by decide)
+
+/-- non-vacuity of `join_two_messages`: "Hello\n" and then the 4 binary bytes plus "\n", nothing mixed -/
+example : ∃ c1 c2, joinMsg 20 witSrv .idle [10] 3 [] = (([0x48, 0x65, 0x6c, 0x6c, 0x6f, 10], none), c1, .idle) ∧
+      joinMsg 20 c1 .idle [10] 3 [] = (([0xde, 0xad, 0xbe, 0xef, 10], none), c2, .idle) ∧
+      ReaderIdle c2 ∧ c2.r.buf.pending = [0x81] :=
+  join_two_messages witSrv witSrv_idle 1 2 (Or.inl rfl) (Or.inr rfl) witMsg witMsg2 witMsg_shape witMsg2_shape [0x81]
+    (by decide) (Or.inl rfl) ⟨by decide, by decide⟩ (by decide) [10] 3 (by decide) 20 (by decide)
+
+/-- the bytes delivered, evaluated directly on the model -/
+example : (joinMsg 20 witSrv .idle [10] 3 []).1 = ([0x48, 0x65, 0x6c, 0x6c, 0x6f, 10], none) := by decide
+
+end Join
+
 end NonVacuity
 
 end WS.Props.C03
